@@ -95,13 +95,13 @@ theorem comments_in_content (t : Bytes) (p : Pos) (body rest : Bytes) (f : Nat)
    `comments_in_content`).  Note the code also accepts a comment in places XML does not
    (`<a <!-- c --> x='1'/>`); the theorems state acceptance, not XML conformance. -/
 
-/-- Processing instructions before the root element: in front of `<?body?>` — body without `<`
-    and without `?>`, any other bytes incl. lone `?` and line breaks, e.g. the
-    `<?xml version=… encoding=…?>` declaration, also spread over several lines — one round of
-    `parse`'s loop over processing instructions steps exactly over it, keeps the line bookkeeping
-    right, skips the white space/comments behind it and goes on with the next round (another
-    processing instruction, or the root element follows) — at any position of any text, any fuel. -/
-theorem pi_before_root_partial (t : Bytes) (p : Pos) (body rest : Bytes)
+/-- Processing instructions before the root element: in front of `<?body?>` — ANY body that does not
+    contain `?>` (`piBody`: `<`, `<!--`, `>`, lone `?`, CR, LF, CRLF, white space … anywhere, e.g. the
+    `<?xml version=… encoding=…?>` declaration, also spread over several lines) — one round of
+    `parse`'s loop over processing instructions steps exactly over it (it ends at its first `?>`), keeps
+    the line bookkeeping right, skips the white space/comments behind it and goes on with the next round
+    (another processing instruction, or the root element follows) — at any position of any text, any fuel. -/
+theorem pi_before_root (t : Bytes) (p : Pos) (body rest : Bytes)
     (h : t.drop p.pos = [60, 63] ++ (body ++ ([63, 62] ++ rest))) (hb : piBody body) :
     ∃ q : Pos, q.pos = p.pos + 2 + body.length + 2 ∧ (PosOK t p → PosOK t q) ∧
       ∀ f, piLoop t (f + 1) p = (skipSpace t q).bind fun q2 => piLoop t f q2.1 :=
@@ -109,40 +109,46 @@ theorem pi_before_root_partial (t : Bytes) (p : Pos) (body rest : Bytes)
 
 /-- non-vacuity: `xml a="1"?\n b` is such a body -/
 example : piBody [120, 109, 108, 32, 97, 61, 34, 49, 34, 63, 10, 32, 98] := by
-  intro i hi
-  simp at hi
-  have h : i = 0 ∨ i = 1 ∨ i = 2 ∨ i = 3 ∨ i = 4 ∨ i = 5 ∨ i = 6 ∨ i = 7 ∨ i = 8 ∨ i = 9 ∨ i = 10 ∨ i = 11 ∨ i = 12 := by omega
-  rcases h with rfl | rfl | rfl | rfl | rfl | rfl | rfl | rfl | rfl | rfl | rfl | rfl | rfl <;> decide
+  unfold piBody; decide
+
+/-- non-vacuity: so is `a ?<!--\n<!-- b\r<c>\r\n <!-- ? >?` — `<!--` behind a lone `?`, behind LF and behind
+    CRLF + white space, `<` behind CR, a lone `?`, `? >`, and a `?` as last byte in front of the closing `?>` -/
+example : piBody [97, 32, 63, 60, 33, 45, 45, 10, 60, 33, 45, 45, 32, 98, 13, 60, 99, 62, 13, 10, 32, 60, 33, 45, 45,
+    32, 63, 32, 62, 63] := by
+  unfold piBody; decide
+
+/-- … while a body that contains `?>` is none (`a?>b`) -/
+example : ¬ piBody [97, 63, 62, 98] := by
+  unfold piBody; decide
 
 /-- Processing instructions before the root, end to end: for every text that consists of white space,
-    any number of processing instructions `<?body?>` (`piBody`, each followed by any white space) and
-    then a `<` that opens neither a processing instruction nor a comment, `parse` reads the root element
-    at the cursor behind the whole prologue (`parseRootAt`, the part of `parseDoc` behind the loop), and
-    that cursor's line bookkeeping is right — the prologue contributes nothing else to the result. -/
-theorem pi_prologue_skipped_partial (ws0 : Bytes) (pis : List (Bytes × Bytes)) (d : UInt8) (rest : Bytes)
+    any number of processing instructions `<?body?>` (any body without `?>`, each followed by any white
+    space) and then a `<` that opens neither a processing instruction nor a comment, `parse` reads the root
+    element at the cursor behind the whole prologue (`parseRootAt`, the part of `parseDoc` behind the loop),
+    and that cursor's line bookkeeping is right — the prologue contributes nothing else to the result. -/
+theorem pi_prologue_skipped (ws0 : Bytes) (pis : List (Bytes × Bytes)) (d : UInt8) (rest : Bytes)
     (hws0 : ∀ b ∈ ws0, isSpace b = true) (hok : prologueOk pis) (hd63 : d ≠ 63) (hd33 : d ≠ 33) :
     ∃ r : Pos, r.pos = ws0.length + (prologue pis).length ∧
       PosOK (ws0 ++ (prologue pis ++ 60 :: d :: rest)) r ∧
       parseDoc (ws0 ++ (prologue pis ++ 60 :: d :: rest)) = parseRootAt (ws0 ++ (prologue pis ++ 60 :: d :: rest)) r :=
   parseDoc_prologue ws0 pis d rest hws0 hok hd63 hd33
 
-/-- non-vacuity: `<?xml v?>\n<?a?>` is such a prologue -/
-example : prologueOk [([120, 109, 108, 32, 118], [10]), ([97], [])] := by
-  refine ⟨?_, by decide, ?_, by decide, trivial⟩
-  · intro i hi
-    simp at hi
-    have h : i = 0 ∨ i = 1 ∨ i = 2 ∨ i = 3 ∨ i = 4 := by omega
-    rcases h with rfl | rfl | rfl | rfl | rfl <;> decide
-  · intro i hi
-    simp at hi
-    subst hi
-    decide
+/-- non-vacuity: `<?xml v?>\n<?a ?<!--?> <?b\r\n <!--?>` is such a prologue (`<!--` behind a lone `?` and
+    behind a line break + white space inside an instruction) -/
+example : prologueOk [([120, 109, 108, 32, 118], [10]), ([97, 32, 63, 60, 33, 45, 45], [32]),
+    ([98, 13, 10, 32, 60, 33, 45, 45], [])] := by
+  refine ⟨?_, by decide, ?_, by decide, ?_, by decide, trivial⟩ <;> (unfold piBody; decide)
 
-/- OPEN: pi_before_root at full strength — the same (both theorems above) for every processing instruction body that
-   does not contain `?>`, i.e. also bodies containing `<`.  Not proved; not even true of the code
-   in one corner: behind a `?` or a line break inside the instruction `parse` calls skipSpace,
-   which also skips a comment, so `<?x ?<!-- ?> -->` is not ended by its first `?>` (the
-   correspondence run exercises such inputs against the real code; the model mirrors it). -/
+/-- non-vacuity, whole parser: `<?a ?<!--?><r/>` (rejected with "Unexpected end of file" before
+    fixes/xml/0005) yields the root `r` at line 1, column 12 … -/
+example : parse [60, 63, 97, 32, 63, 60, 33, 45, 45, 63, 62, 60, 114, 47, 62] = .ok (.mk [114] 1 12 [] .nil) := by rfl
+
+/-- … `<?a\r\n <!--?><r/>` the root at line 2, column 8 … -/
+example : parse [60, 63, 97, 13, 10, 32, 60, 33, 45, 45, 63, 62, 60, 114, 47, 62] = .ok (.mk [114] 2 8 [] .nil) := by rfl
+
+/-- … and `<?x ?<!-- ?> -->?><r/>` is ended by its first `?>`: the `-->` behind it is not a `<` (line 1, column 14) -/
+example : parse [60, 63, 120, 32, 63, 60, 33, 45, 45, 32, 63, 62, 32, 45, 45, 62, 63, 62, 60, 114, 47, 62] =
+    .err 1 14 .lt := by rfl
 
 /-- Unescaping undoes escaping, for every byte string, for text and for attribute values
     (`'"&<>` as entities, line breaks in attribute values as `&#10;` / `&#13;`). -/
